@@ -6,8 +6,11 @@ import (
 	"regexp"
 	"runtime/debug"
 	"strings"
+	"sync/atomic"
 
 	"github.com/buildbarn/bb-storage/pkg/blobstore/buffer"
+	"google.golang.org/grpc/codes"
+	"google.golang.org/grpc/status"
 	"google.golang.org/protobuf/proto"
 	"google.golang.org/protobuf/types/known/emptypb"
 )
@@ -25,9 +28,85 @@ const (
 	opCloneStream   = "CloneStream"
 )
 
+// Decorations: what bb-storage itself puts around a CAS buffer between its
+// construction and the consumer (replicators and the local stores attach
+// background tasks, metrics / existence-precondition layers attach error
+// handlers). The statement quantifies over "however a CAS buffer is ...
+// consumed": a decorated CAS buffer is still a CAS buffer and every consumption
+// method of it is held to the same clauses. What the task / handler themselves
+// promise (completion order, retries) is C15's / C16's business: the task here
+// finishes immediately and the handler passes every error through unchanged.
+const (
+	wrapTask    = "WithTask"         // b.WithTask(func() error { return nil })
+	wrapTaskErr = "WithTask(err)"    // b.WithTask(func() error { return errTask })
+	wrapHandler = "WithErrorHandler" // buffer.WithErrorHandler(b, pass-through handler)
+)
+
+const taskErrMarker = "c09-task"
+
+var errTask = status.Error(codes.Aborted, taskErrMarker+": background task failed")
+
+func isTaskErr(err error) bool {
+	return err != nil && status.Code(err) == codes.Aborted && strings.Contains(err.Error(), taskErrMarker)
+}
+
+// passThroughHandler is an ErrorHandler that neither translates errors nor
+// supplies replacement buffers.
+type passThroughHandler struct{ errors, done atomic.Int32 }
+
+func (h *passThroughHandler) OnError(err error) (buffer.Buffer, error) {
+	h.errors.Add(1)
+	return nil, err
+}
+func (h *passThroughHandler) Done() { h.done.Add(1) }
+
+// decorate applies the decorations, innermost first.
+func decorate(b buffer.Buffer, wraps []string) buffer.Buffer {
+	for _, k := range wraps {
+		switch k {
+		case wrapTask:
+			b = b.WithTask(func() error { return nil })
+		case wrapTaskErr:
+			b = b.WithTask(func() error { return errTask })
+		case wrapHandler:
+			b = buffer.WithErrorHandler(b, &passThroughHandler{})
+		default:
+			panic("c09 harness: unknown decoration " + k)
+		}
+	}
+	return b
+}
+
+// wrapPath is the decorations' part of a violation signature: the decorator
+// names without arguments, repetitions collapsed ("WithTask>").
+func wrapPath(wraps []string) string {
+	var sb strings.Builder
+	last := ""
+	for _, k := range wraps {
+		if k == wrapTaskErr {
+			k = wrapTask
+		}
+		if k != last {
+			sb.WriteString(k + ">")
+			last = k
+		}
+	}
+	return sb.String()
+}
+
+func hasTaskErr(wraps []string) bool {
+	for _, k := range wraps {
+		if k == wrapTaskErr {
+			return true
+		}
+	}
+	return false
+}
+
 // consumer describes one way of consuming a buffer; clone operations carry the
 // consumers of their clones.
 type consumer struct {
+	wrap  []string // decorations applied to the buffer before op, innermost first
 	op    string
 	max   int   // ToByteSlice / ToProto / CloneCopy: maximumSizeBytes; ToChunkReader: maximumChunkSizeBytes
 	off   int64 // ToChunkReader / ReadAt
@@ -37,6 +116,11 @@ type consumer struct {
 }
 
 func (c *consumer) String() string {
+	if len(c.wrap) > 0 {
+		cc := *c
+		cc.wrap = nil
+		return strings.Join(c.wrap, ">") + ">" + cc.String()
+	}
 	switch c.op {
 	case opToByteSlice, opToProto:
 		return fmt.Sprintf("%s(max=%d)", c.op, c.max)
@@ -73,7 +157,11 @@ type leafObs struct {
 	// parentArgInvalid: a CloneCopy above this leaf was given a maximum below
 	// the digest's size.
 	parentArgInvalid bool
-	panicked         string
+	// decorated: a WithTask / WithErrorHandler decoration sits between the
+	// constructor and this leaf; taskErr: one of them is a task that fails.
+	decorated bool
+	taskErr   bool
+	panicked  string
 }
 
 type recWriter struct{ b []byte }
@@ -82,9 +170,12 @@ func (w *recWriter) Write(p []byte) (int, error) { w.b = append(w.b, p...); retu
 
 // runLeaf consumes b with one non-clone method and records the observation.
 // budget bounds the number of calls on streams (no-progress guard).
-func runLeaf(b buffer.Buffer, c *consumer, path string, budget int) (o leafObs) {
-	o.path = path
+func runLeaf(b buffer.Buffer, c *consumer, prefix string, above []string, budget int) (o leafObs) {
+	o.path = prefix + wrapPath(c.wrap) + c.op
 	o.cons = c
+	o.decorated = len(above)+len(c.wrap) > 0
+	o.taskErr = hasTaskErr(above) || hasTaskErr(c.wrap)
+	b = decorate(b, c.wrap)
 	switch c.op {
 	case opToByteSlice:
 		data, err := b.ToByteSlice(c.max)
@@ -206,16 +297,16 @@ func sutSite(stack string) string {
 func consume(b buffer.Buffer, c *consumer, budget int) []leafObs {
 	switch c.op {
 	case opCloneCopy:
-		b1, b2 := b.CloneCopy(c.max)
+		b1, b2 := decorate(b, c.wrap).CloneCopy(c.max)
 		var out []leafObs
 		for i, cl := range []buffer.Buffer{b1, b2} {
-			o := runLeaf(cl, c.subs[i], opCloneCopy+">"+c.subs[i].op, budget)
+			o := runLeaf(cl, c.subs[i], wrapPath(c.wrap)+opCloneCopy+">", c.wrap, budget)
 			out = append(out, o)
 		}
 		return out
 	case opCloneStream:
 		clones := make([]buffer.Buffer, 0, 3)
-		b1, b2 := b.CloneStream()
+		b1, b2 := decorate(b, c.wrap).CloneStream()
 		clones = append(clones, b1)
 		if len(c.subs) == 3 {
 			b2a, b2b := b2.CloneStream()
@@ -233,10 +324,10 @@ func consume(b buffer.Buffer, c *consumer, budget int) []leafObs {
 				defer func() {
 					if r := recover(); r != nil {
 						st := string(debug.Stack())
-						ch <- res{i, leafObs{path: opCloneStream + ">" + c.subs[i].op, cons: c.subs[i], panicked: fmt.Sprintf("%v\n%s", r, st)}}
+						ch <- res{i, leafObs{path: wrapPath(c.wrap) + opCloneStream + ">" + wrapPath(c.subs[i].wrap) + c.subs[i].op, cons: c.subs[i], panicked: fmt.Sprintf("%v\n%s", r, st)}}
 					}
 				}()
-				ch <- res{i, runLeaf(clones[i], c.subs[i], opCloneStream+">"+c.subs[i].op, budget)}
+				ch <- res{i, runLeaf(clones[i], c.subs[i], wrapPath(c.wrap)+opCloneStream+">", c.wrap, budget)}
 			}(i)
 		}
 		out := make([]leafObs, len(clones))
@@ -250,5 +341,5 @@ func consume(b buffer.Buffer, c *consumer, budget int) []leafObs {
 		}
 		return out
 	}
-	return []leafObs{runLeaf(b, c, c.op, budget)}
+	return []leafObs{runLeaf(b, c, "", nil, budget)}
 }
